@@ -1,4 +1,4 @@
 ----------------------------- MODULE MCTraceRun -----------------------------
 EXTENDS TraceRun
-TracePreloadNames == <<"p1.rb", "p2.rb", "p3.rb">>
+TracePreloadNames == <<"p9.rb", "p8.rb", "p7.rb">>      \* written order of the harness: deliberately not file-name order
 =============================================================================
